@@ -178,6 +178,14 @@ impl Stanza {
         cancellation_flag: &dyn CancellationFlag,
     ) -> Result<(), ExecutionError> {
         locals.clear();
+        #[cfg(feature = "verif")]
+        crate::verif::emit(|| {
+            let root = mat
+                .nodes_for_capture_index(self.full_match_stanza_capture_index as u32)
+                .next()
+                .map(|n| n.id());
+            crate::verif::json!({"e": "match", "row": self.range.start.row, "col": self.range.start.column, "root": root})
+        });
         for statement in &self.statements {
             let error_context = {
                 let node = mat
@@ -245,6 +253,11 @@ impl Statement {
 
     fn execute(&self, exec: &mut ExecutionContext) -> Result<(), ExecutionError> {
         exec.cancellation_flag.check("executing statement")?;
+        #[cfg(feature = "verif")]
+        crate::verif::emit(|| {
+            let l = self.location();
+            crate::verif::json!({"e": "stmt", "row": l.row, "col": l.column})
+        });
         match self {
             Statement::DeclareImmutable(statement) => statement.execute(exec),
             Statement::DeclareMutable(statement) => statement.execute(exec),
@@ -285,6 +298,8 @@ impl Assign {
 impl CreateGraphNode {
     fn execute(&self, exec: &mut ExecutionContext) -> Result<(), ExecutionError> {
         let graph_node = exec.graph.add_graph_node();
+        #[cfg(feature = "verif")]
+        crate::verif::emit(|| crate::verif::json!({"e": "gnode", "id": graph_node.index()}));
         self.node
             .add_debug_attrs(&mut exec.graph[graph_node].attributes, exec.config)?;
         if let Some(match_node_attr) = &exec.config.match_node_attr {
@@ -313,6 +328,10 @@ impl AddGraphNodeAttribute {
     fn execute(&self, exec: &mut ExecutionContext) -> Result<(), ExecutionError> {
         let node = self.node.evaluate(exec)?.into_graph_node_ref()?;
         let add_attribute = |exec: &mut ExecutionContext, name: Identifier, value: Value| {
+            #[cfg(feature = "verif")]
+            crate::verif::emit(|| {
+                crate::verif::json!({"e": "attr", "on": "node", "src": node.index(), "name": name.as_str(), "val": crate::verif::value(&value)})
+            });
             exec.graph[node]
                 .attributes
                 .add(name.clone(), value)
@@ -334,9 +353,15 @@ impl CreateEdge {
     fn execute(&self, exec: &mut ExecutionContext) -> Result<(), ExecutionError> {
         let source = self.source.evaluate(exec)?.into_graph_node_ref()?;
         let sink = self.sink.evaluate(exec)?.into_graph_node_ref()?;
+        #[cfg(feature = "verif")]
+        let verif_new = exec.graph[source].get_edge(sink).is_none();
         let edge = match exec.graph[source].add_edge(sink) {
             Ok(edge) | Err(edge) => edge,
         };
+        #[cfg(feature = "verif")]
+        crate::verif::emit(|| {
+            crate::verif::json!({"e": "edge", "src": source.index(), "dst": sink.index(), "new": verif_new})
+        });
         self.add_debug_attrs(&mut edge.attributes, exec.config)?;
         Ok(())
     }
@@ -354,6 +379,10 @@ impl AddEdgeAttribute {
                     source, sink, self,
                 ))),
             }?;
+            #[cfg(feature = "verif")]
+            crate::verif::emit(|| {
+                crate::verif::json!({"e": "attr", "on": "edge", "src": source.index(), "dst": sink.index(), "name": name.as_str(), "val": crate::verif::value(&value)})
+            });
             edge.attributes.add(name.clone(), value).map_err(|_| {
                 ExecutionError::DuplicateAttribute(format!(
                     " {} on edge ({} -> {}) in {}",
@@ -751,6 +780,10 @@ impl ScopedVariable {
             .try_get(scope.index)
             .and_then(|v| v.get(&self.name))
         {
+            #[cfg(feature = "verif")]
+            crate::verif::emit(|| {
+                crate::verif::json!({"e": "sget", "node": scope.index, "name": self.name.as_str(), "at": scope.index})
+            });
             return Ok(value);
         }
 
@@ -767,6 +800,10 @@ impl ScopedVariable {
                     .try_get(scope.id() as u32)
                     .and_then(|v| v.get(&self.name))
                 {
+                    #[cfg(feature = "verif")]
+                    crate::verif::emit(|| {
+                        crate::verif::json!({"e": "sget", "name": self.name.as_str(), "at": scope.id() as u32})
+                    });
                     return Ok(value);
                 }
                 parent = scope.parent();
@@ -795,6 +832,10 @@ impl ScopedVariable {
                 )))
             }
         };
+        #[cfg(feature = "verif")]
+        crate::verif::emit(|| {
+            crate::verif::json!({"e": "sadd", "node": scope.index, "name": self.name.as_str(), "mutable": mutable})
+        });
         let variables = exec.scoped.get_mut(scope);
         variables
             .add(self.name.clone(), value, mutable)
@@ -812,6 +853,10 @@ impl ScopedVariable {
                 )))
             }
         };
+        #[cfg(feature = "verif")]
+        crate::verif::emit(|| {
+            crate::verif::json!({"e": "sset", "node": scope.index, "name": self.name.as_str()})
+        });
         let variables = exec.scoped.get_mut(scope);
         variables
             .set(self.name.clone(), value)
